@@ -225,7 +225,7 @@ def from_dataset(
     """
     try:
         items = list(examples.items())
-    except ItemsNotDefined:
+    except (ItemsNotDefined, NotImplementedError):
         return from_list(list(examples),
                          immutable_warranty=immutable_warranty, name=name)
     else:
